@@ -160,6 +160,46 @@ Example C17_adapter_link_nonvacuous :
   /\ compatible (uu (U 3)) (uu (U 13)) = false /\ compatible (uu (U 13)) (uu (U 13)) = true.
 Proof. repeat split; vm_compute; reflexivity. Qed.
 
+(** A state declared in [a] reset with [full_like(template, Quantity(x, f))] and published to a
+    consumer in [b]: refused (pint's DimensionalityError) when [f] and [a] differ in dimension,
+    otherwise the consumer receives the dimensional-analysis conversion of the FILL VALUE from its
+    own units [f] to [b].
+    A component computing in its input's own units [m] between a generator in [s] and a consumer in
+    [d] (output info derived from the input's info, plain doubled magnitudes pushed): refused with
+    FinamMetaDataError when a link joins different dimensions, otherwise the middle output holds
+    2 * convert s m x (labelled [m]) and the consumer receives its conversion from [m] to [d]. *)
+Theorem C17_fill_and_chain :
+  (forall Un f a b x,
+     faithful Un -> (forall u, In u Un -> wf (uu u)) -> offsets_ok Un -> In a Un -> In b Un ->
+     (compatible (uu f) (uu a) = false -> p_fill f a b x = RErr ErrDim)
+     /\ (compatible (uu f) (uu a) = true -> compatible (uu a) (uu b) = true ->
+         exists us xs y, p_fill f a b x = RLink us true xs (cid b) true y
+                         /\ y == convert (uu f) (uu b) x))
+  /\ (forall Un s m d x,
+     faithful Un -> (forall u, In u Un -> wf (uu u)) -> offsets_ok Un ->
+     In s Un -> In m Un -> In d Un ->
+     (compatible (uu s) (uu m) = false \/ compatible (uu m) (uu d) = false ->
+        p_chain s m d x = RErr ErrMeta)
+     /\ (compatible (uu s) (uu m) = true -> compatible (uu m) (uu d) = true ->
+         exists cs xs cv z, p_chain s m d x = RLink (cid m) cs xs (cid d) cv z
+           /\ xs == 2 * convert (uu s) (uu m) x
+           /\ z == convert (uu m) (uu d) (2 * convert (uu s) (uu m) x))).
+Proof. exact (conj fill_exact chain_exact). Qed.
+
+(* 1.5 km filled into an m state, consumer cm;  generator m -> component in mm -> consumer m *)
+Example C17_fill_and_chain_nonvacuous :
+  convert (uu (U 2)) (uu (U 4)) (15#10) == 150000
+  /\ (exists us xs y, fst (step [] (Fill (U 2) (U 0) (U 4) (15#10))) = RLink us true xs 3 true y /\ y == 150000)
+  /\ (exists cs xs cv z, fst (step [] (Chain (U 0) (U 3) (U 0) (15#10))) = RLink 2 cs xs 0 cv z
+        /\ xs == 3000 /\ z == 3)
+  /\ fst (step [] (Chain (U 0) (U 6) (U 0) 1)) = RErr ErrMeta.
+Proof.
+  split; [vm_compute; reflexivity|]. split; [|split].
+  - vm_compute. do 3 eexists. split; reflexivity.
+  - vm_compute. do 4 eexists. repeat split; reflexivity.
+  - vm_compute. reflexivity.
+Qed.
+
 (** Non-vacuity. *)
 (* a session on the catalogue with repeated / reversed pairs, a clear, a relabel, offsets, a
    refused link; memoised answers = pure answers, and they are not all trivial *)
@@ -218,3 +258,4 @@ Print Assumptions C17_catalogue_ok.
 Print Assumptions C17_convert_commutes_mask.
 Print Assumptions C17_repeated_reads.
 Print Assumptions C17_adapter_link.
+Print Assumptions C17_fill_and_chain.
